@@ -127,6 +127,10 @@ def property_checks(inp):
     ind = (d2 <= r * r).astype(float)
     A(("indicator of pixel centres", float(numpy.abs((C - ind))[~amb].max()) if (~amb).any() else 0.0, 0.0))
     A(("values are 0/1, shape n x n", 0.0 if (C.shape == (n, n) and set(numpy.unique(C)) <= {0.0, 1.0}) else 1.0, 0.0))
+    # the centre held as a float64 array and used for several circles (nested radii, both origins) is not changed by any of them
+    carr = numpy.array([c0, c1], dtype=float); ckeep = carr.copy()
+    Ca = pupil.circle(r, n, carr, org); Cb = pupil.circle(r, n, carr, org); pupil.circle(r + 1.0, n, carr, "middle"); pupil.circle(r, n, carr, "corner")
+    A(("a centre given as an array is left untouched and gives the same mask every time", 0.0 if (numpy.array_equal(carr, ckeep) and numpy.array_equal(Ca, C) and numpy.array_equal(Cb, C)) else 1.0, 0.0))
     r2 = r + inp["dr"]
     C2 = pupil.circle(r2, n, (c0, c1), org)
     A(("nested in r", float((C - C2).max()) if n else 0.0, 0.0))
@@ -191,6 +195,13 @@ def property_checks(inp):
             o = wfslib.make_subaps_2d(data, m2)
             A(("scatter then gather is identity", float(numpy.abs(o[:, :, m2 == 1] - data).max()), 0.0))
             A(("scatter leaves zeros elsewhere", float(numpy.abs(o[:, :, m2 != 1]).max()) if (m2 != 1).any() else 0.0, 0.0))
+            # the same mask held in another memory order (column-major, transposed view of the transpose, reversed view of the
+            # reversed copy) is the same mask: sub-apertures are numbered in row-major order of the mask's INDICES
+            worst_o = 0.0
+            for mv in (numpy.asfortranarray(m2), numpy.ascontiguousarray(m2.T).T, numpy.ascontiguousarray(m2[::-1, ::-1])[::-1, ::-1]):
+                ov = wfslib.make_subaps_2d(data, mv)
+                worst_o = max(worst_o, float(numpy.abs(ov - o).max()) if ov.shape == o.shape else float("inf"))
+            A(("scatter does not depend on the memory order of the mask", worst_o, 0.0))
     return out
 
 
